@@ -27,7 +27,7 @@ ID = "C20"
 LEVEL = "exploration"
 RUNS = {"quick": 7000, "thorough": 250000}
 BUDGET = {"quick": 80, "thorough": 1800}
-RULE = ("one run = one fresh shared world + a seeded list of 2-32 operations from a 110-entry catalogue, executed by that many "
+RULE = ("one run = one fresh shared world + a seeded list of 2-32 operations from a 118-entry catalogue, executed by that many "
         "caller threads under one seeded schedule: sequential history | sweep1 (one pre-emption at a chosen line of the first "
         "operation, index-driven so that consecutive runs walk the pre-emption points) | PCT(d<=3) | random switching "
         "(p in 0.02..0.5), line granular, opcode granular inside the hot functions for a third of the runs; the thorough tier adds "
@@ -167,6 +167,11 @@ def prepare_inputs(w: World, label: str = "") -> None:
         i["es-peer-kid"] = jws.serialize_compact({"alg": "ES256", "kid": "partner-key-2024"}, b"payload-peer-kid", ik["ec"])
         i["hs-peer-kid"] = jws.serialize_compact({"alg": "HS256", "kid": "shared-secret-7"}, b"payload-peer-kid-hs", ik["oct"])
         i["ecdh-peer-kid"] = jwe.encrypt_compact({"alg": "ECDH-ES+A128KW", "enc": "A128CBC-HS256", "kid": "partner-key-2024"}, b"plain-peer-kid", ik["ec"])
+        with warnings.catch_warnings():
+            warnings.simplefilter("ignore")
+            i["hs-text-key"] = jws.serialize_compact({"alg": "HS256"}, b"payload-text-key", "a shared secret given as text")
+            i["dir-text-key"] = jwe.encrypt_compact({"alg": "dir", "enc": "A256GCM"}, b"plain-text-key", "0123456789abcdef0123456789abcdef")
+        i["pem-text"] = K.pem(w.mat["rsa"], False).decode()
         i["7797compact"] = _r7797.serialize_compact({"alg": "HS256", "b64": False, "crit": ["b64"]}, b"payload.7797", ik["oct"])
         i["hs-b64true"] = _r7797.serialize_compact({"alg": "HS256", "b64": True, "crit": ["b64"]}, b"payload-b64true", ik["oct"])
         fo = jwe.FlattenedJSONEncryption({"enc": "A128CBC-HS256"}, b"plain-flat", None, b"the aad")
@@ -389,6 +394,23 @@ def _ops():
     cons("dec-ecdh-peer-kid", lambda w: jwe.decrypt_compact(w.inputs["ecdh-peer-kid"], w.k["ec"]).plaintext)
     O["sign-es256-peer-kid"] = (lambda w: jws.serialize_compact({"alg": "ES256", "kid": "partner-key-2024"}, b"m-es256", w.k["ec"]), "jws")
     O["enc-ecdh-peer-kid"] = (lambda w: jwe.encrypt_compact({"alg": "ECDH-ES+A128KW", "enc": "A128CBC-HS256", "kid": "partner-key-2024"}, b"p-ecdh", w.p["ec"]), "jwe")
+    # keys handed over as bare text / octets (deprecated, still supported): each call deals with its own warning
+    cons("sign-hs256-string-key", lambda w: jws.serialize_compact({"alg": "HS256"}, b"m-string-key", "a shared secret given as text"))
+    cons("verify-hs-bytes-key", lambda w: jws.deserialize_compact(w.inputs["hs-text-key"], b"a shared secret given as text").payload)
+    cons("dec-dir-string-key", lambda w: jwe.decrypt_compact(w.inputs["dir-text-key"], "0123456789abcdef0123456789abcdef").plaintext)
+    cons("sign-hs256-pem-as-string-key", lambda w: jws.serialize_compact({"alg": "HS256"}, b"m", w.inputs["pem-text"]))
+
+    # RFC 7797 JSON with an unencoded payload, keys from sets and single keys in turn: no call leaves anything behind for the next
+    def _proj(tok):
+        return [tok.get("header"), json.loads(b64.dec(tok["protected"])), tok.get("payload")]
+    cons("sign-7797-json-shared-set", lambda w: _proj(rfc7797.serialize_json(
+        {"protected": {"alg": "ES256", "b64": False, "crit": ["b64"]}}, "m 7797 set", w.sets["priv"], registry=w.reg7797)))
+    cons("sign-7797-json-own-set", lambda w: _proj(rfc7797.serialize_json(
+        {"protected": {"alg": "HS256", "b64": False, "crit": ["b64"]}}, "m 7797 own set", KeySet([w.k["oct"]]), registry=w.reg7797)))
+    cons("sign-7797-json-single-key", lambda w: _proj(rfc7797.serialize_json(
+        {"protected": {"alg": "HS256", "b64": False, "crit": ["b64"]}}, "m 7797 single", w.k["oct"], registry=w.reg7797)))
+    cons("sign-7797-json-kid-in-protected", lambda w: _proj(rfc7797.serialize_json(
+        {"protected": {"alg": "HS256", "kid": "named", "b64": False, "crit": ["b64"]}}, "m 7797 named", w.k["oct"], registry=w.reg7797)))
     # one any-recipient JWE registry object handed to compact and JSON decryption
     cons("dec-kw-any-registry", lambda w: jwe.decrypt_compact(w.inputs["kw"], w.k["oct16"], registry=w.reg["jwe-any"]).plaintext)
     cons("dec-kw-bad-any-registry", lambda w: jwe.decrypt_compact(w.inputs["kw-bad"], w.k["oct16"], registry=w.reg["jwe-any"]).plaintext)
@@ -623,7 +645,7 @@ def later_calls(w: World) -> list[str]:
 STRATEGIES = ["sequential", "sweep1", "sweep1", "pct", "pct", "random", "random"]
 
 
-FAMILIES = [("plain-registry", ), ("any", ), ("peer-kid", "ensure-kid", "keyset-construct", "keyset-as-dict", "sign-es256-set"), ("hs", "7797", "general", "jwt-encode-jwe"), ("es256", "es384", "verify-es", "jwt-encode", "jwt-decode"), ("rs", "ps256"), ("ed", ),
+FAMILIES = [("string-key", "bytes-key"), ("7797-json", ), ("plain-registry", ), ("any", ), ("peer-kid", "ensure-kid", "keyset-construct", "keyset-as-dict", "sign-es256-set"), ("hs", "7797", "general", "jwt-encode-jwe"), ("es256", "es384", "verify-es", "jwt-encode", "jwt-decode"), ("rs", "ps256"), ("ed", ),
             ("kw", "multi", "flat"), ("gcmkw", ), ("pbes2", ), ("ecdh", "xdh", "1pu"), ("1pu", ), ("oaep", ), ("dir", ), ("claims", ),
             ("set", "keyset"), ("ensure-kid", "as-dict", "thumbprint")]
 
